@@ -650,7 +650,7 @@ def judge(spec, results):
                 sub = ''
                 if oc[1] == 'INVALID_ALIGNMENT':
                     import re
-                    sub = re.sub(r'[^A-Za-z]+', '_', re.sub(r'\(.*?\)|\[.*?\]|\d+', '', oc[2])).strip('_')[:40]
+                    sub = re.sub(r'[^A-Za-z]+', '_', re.sub(r"b?'[^']*'|\(.*?\)|\[.*?\]|\d+", '', oc[2])).strip('_')[:40]
                 add(oc[1], '%s %s' % (oc[2], desc), tag, sub)
         elif oc[0] == 'OK':
             lo = r.op(ix['L'])
